@@ -146,6 +146,9 @@ pub trait Item {
     fn is_option(&self) -> bool;
     // serialize_to a file, compare the file with `bytes`, load_from it again and compare with the original
     fn file_roundtrip(&self, path: &std::path::Path, bytes: &[u8]) -> bool;
+    // the file-based entry points on their own (C14: a file that cannot take everything)
+    fn ser_to(&self, path: &std::path::Path) -> io::Result<()>;
+    fn load_from_cmp(&self, path: &std::path::Path) -> io::Result<(bool, bool)>;
 }
 
 pub struct G<T> {
@@ -197,6 +200,13 @@ impl<T: Serialize + PartialEq> Item for G<T> {
         };
         let _ = std::fs::remove_file(path);
         ok
+    }
+    fn ser_to(&self, path: &std::path::Path) -> io::Result<()> {
+        serialize::serialize_to(&self.v, path)
+    }
+    fn load_from_cmp(&self, path: &std::path::Path) -> io::Result<(bool, bool)> {
+        let x = serialize::load_from::<T, _>(path)?;
+        Ok((x == self.v, (self.answers)(&x, &self.v)))
     }
 }
 
@@ -800,7 +810,7 @@ fn g_sparse(rng: &mut Rng, len: usize, count: usize, multi: bool, profile: u64) 
                     0 => rng.below(len as u64) as usize,
                     _ => {
                         let base = *rng.pick(&[0usize, len / 2, len.saturating_sub(count + 1)]);
-                        std::cmp::min(len - 1, base + rng.below(2 * count as u64 + 1) as usize)
+                        std::cmp::min(len - 1, base.saturating_add(rng.below(2 * count as u64 + 1) as usize))
                     }
                 };
                 set.insert(v);
@@ -1420,6 +1430,7 @@ fn run_c14(rng: &mut Rng, out: &mut Out, thorough: bool) {
         emit_trunc_sparse(out, sp);
     }
     run_c14_writers(rng, out, thorough);
+    run_c14_files(rng, out, thorough);
 }
 
 // ---------------------------------------------------------------- C14: buffered file writers over a failing file
@@ -1591,16 +1602,18 @@ fn parse_obs(line: &str) -> Option<WObs> {
     })
 }
 
-// one forked child for the whole batch; None = the child did not deliver that case
-fn run_batch(cases: &[WCase], dir: &std::path::Path) -> Vec<Option<WObs>> {
+// Runs job(i, scratch file i, the unlimited soft limit) for i = 0 .. n-1 in ONE forked child - SIGXFSZ ignored there;
+// setting the soft RLIMIT_FSIZE and lifting it again is the job's business - and returns the one line of text each job
+// produced (sent through the pipe as soon as the job is done); None = the child did not deliver that job.
+fn fork_lines(n: usize, dir: &std::path::Path, tag: &str, job: &dyn Fn(usize, &std::path::Path, libc::rlim_t) -> String) -> Vec<Option<String>> {
     use std::os::unix::io::FromRawFd;
     let mut fds = [0 as libc::c_int; 2];
     if unsafe { libc::pipe(fds.as_mut_ptr()) } != 0 {
-        return cases.iter().map(|_| None).collect();
+        return (0..n).map(|_| None).collect();
     }
     let pid = unsafe { libc::fork() };
     if pid < 0 {
-        return cases.iter().map(|_| None).collect();
+        return (0..n).map(|_| None).collect();
     }
     if pid == 0 {
         // child: never returns, never writes to anything but the test files and the pipe
@@ -1610,20 +1623,21 @@ fn run_batch(cases: &[WCase], dir: &std::path::Path) -> Vec<Option<WObs>> {
         }
         let unlimited = soft_limit();
         let me = unsafe { libc::getpid() };
-        let mut text = String::new();
-        for (i, c) in cases.iter().enumerate() {
-            let path = dir.join(format!("c14w-{}-{}.bin", me, i));
-            let o = run_session(c, &path, unlimited);
-            text.push_str(&obs_line(&o));
-        }
-        let bytes = text.as_bytes();
-        let mut off = 0usize;
-        while off < bytes.len() {
-            let k = unsafe { libc::write(fds[1], bytes[off..].as_ptr() as *const libc::c_void, bytes.len() - off) };
-            if k <= 0 {
-                break;
+        for i in 0..n {
+            let path = dir.join(format!("{}-{}-{}.bin", tag, me, i));
+            let mut line = job(i, &path, unlimited).replace('\n', " ");
+            line.push('\n');
+            let bytes = line.as_bytes();
+            let mut off = 0usize;
+            while off < bytes.len() {
+                let k = unsafe { libc::write(fds[1], bytes[off..].as_ptr() as *const libc::c_void, bytes.len() - off) };
+                if k <= 0 {
+                    unsafe {
+                        libc::_exit(1);
+                    }
+                }
+                off += k as usize;
             }
-            off += k as usize;
         }
         unsafe {
             libc::close(fds[1]);
@@ -1642,9 +1656,17 @@ fn run_batch(cases: &[WCase], dir: &std::path::Path) -> Vec<Option<WObs>> {
     unsafe {
         libc::waitpid(pid, &mut status, 0);
     }
-    let mut res: Vec<Option<WObs>> = text.lines().map(parse_obs).collect();
-    res.resize_with(cases.len(), || None);
+    // a line cut short by a dying child does not end in a newline: not delivered
+    let complete = if text.ends_with('\n') { text.len() } else { text.rfind('\n').map(|p| p + 1).unwrap_or(0) };
+    let mut res: Vec<Option<String>> = text[..complete].lines().map(|l| Some(l.to_string())).collect();
+    res.resize_with(n, || None);
     res
+}
+
+// one forked child for the whole batch; None = the child did not deliver that case
+fn run_batch(cases: &[WCase], dir: &std::path::Path) -> Vec<Option<WObs>> {
+    let job = |i: usize, path: &std::path::Path, unlimited: libc::rlim_t| obs_line(&run_session(&cases[i], path, unlimited));
+    fork_lines(cases.len(), dir, "c14w", &job).iter().map(|l| l.as_ref().and_then(|s| parse_obs(s))).collect()
 }
 
 fn wcase_mem(c: &WCase) -> Vec<u64> {
@@ -1707,8 +1729,9 @@ fn emit_wcase(out: &mut Out, c: &WCase, o: &Option<WObs>) {
     let sk = if c.full { 1 } else { 0 };
     let tail = format!("{} {} {} {} {} {} {}", nlist(&mem), n(o.created), panic, n(o.close), b(o.open), n(o.len), nlist(&o.file));
     let json = format!(
-        "{{\"int\":{},\"dev_full\":{},\"limit\":{},\"width\":{},\"buf\":{},\"pushes\":{},\"complete_bytes\":{},\"class\":{:?},\"created\":{},\"panic\":{:?},\"close\":{},\"open\":{},\"file_elems\":{}}}",
-        c.int, c.full, c.limit, c.width, c.buf, c.ops.len(), 8 * mem.len(), class, o.created, o.panic, o.close, o.open, o.file.len()
+        "{{\"int\":{},\"dev_full\":{},\"limit\":{},\"width\":{},\"buf\":{},\"pushes\":{},\"complete_bytes\":{},\"class\":{:?},\"created\":{},\"panic\":{},\"close\":{},\"open\":{},\"file_elems\":{}}}",
+        c.int, c.full, c.limit, c.width, c.buf, c.ops.len(), 8 * mem.len(), class, o.created,
+        match o.panic { Some((i, k)) => format!("[{},{}]", i, k), None => "null".to_string() }, o.close, o.open, o.file.len()
     );
     if c.int {
         let xs: Vec<u64> = c.ops.iter().map(|op| if let WOp::Int(x, _) = op { *x } else { 0 }).collect();
@@ -1808,6 +1831,336 @@ fn run_c14_writers(rng: &mut Rng, out: &mut Out, thorough: bool) {
         for (c, o) in chunk.iter().zip(res.iter()) {
             emit_wcase(out, c, o);
         }
+    }
+}
+
+// ---------------------------------------------------------------- C14: serialize_to on a failing file
+// The REAL serialize::serialize_to(&value, file) - the file handling around Serialize::serialize included: whatever
+// buffering it does, whatever it does before it returns - on a regular file under RLIMIT_FSIZE = L (soft limit, SIGXFSZ
+// ignored, forked child as above) for a sweep of L, and on /dev/full; then serialize::load_from of the file it left
+// behind. Reported per run: what serialize_to returned (Ok / errno / panic), the length of the file afterwards, whether
+// the file is the in-memory serialization / a strict prefix of it / something else, and the outcome of load_from.
+
+struct FItem {
+    it: Box<dyn Item>,
+    desc: String,  // Coq term of type fval
+    label: String, // for the replay file
+}
+
+fn fitem(it: Box<dyn Item>, label: &str) -> FItem {
+    let desc = if is_w(it.as_ref()) { format!("(FW {} {})", it.ty(), it.recipe()) } else { format!("(FT {} {})", it.ty(), it.recipe()) };
+    FItem { it, desc, label: label.to_string() }
+}
+
+fn fitem_sparse(sp: SpItem, label: &str) -> FItem {
+    let desc = format!("(FS {} {} {} {})", sp.w, nu(sp.len), b(sp.multi), ulist(&sp.vals));
+    FItem { it: Box::new(sp.g), desc, label: label.to_string() }
+}
+
+fn rand_vals(rng: &mut Rng, len: usize, width: u64) -> Vec<u64> {
+    (0..len).map(|_| rng.below(1u64 << width)).collect()
+}
+
+// small values of every type: every limit below the size is tried
+fn file_items_small(rng: &mut Rng, thorough: bool) -> Vec<FItem> {
+    let mut v: Vec<FItem> = Vec::new();
+    v.push(fitem(Box::new(g_u64(rng)), "u64"));
+    v.push(fitem(Box::new(g_usize(rng)), "usize"));
+    v.push(fitem(Box::new(g_pair(rng)), "(u64, u64)"));
+    for n in [0usize, 1, 2, 7, 40, 120] {
+        v.push(fitem(Box::new(g_vec_u64(rng, n)), "Vec<u64>"));
+    }
+    for n in [1usize, 3, 30] {
+        v.push(fitem(Box::new(g_vec_pair(rng, n)), "Vec<(u64, u64)>"));
+    }
+    for n in [0usize, 1, 7, 8, 9, 100, 777] {
+        v.push(fitem(Box::new(g_bytes(rng, n)), "Vec<u8>"));
+    }
+    for n in [0usize, 1, 5, 8, 60, 300] {
+        v.push(fitem(Box::new(g_string(rng, n)), "String"));
+    }
+    for n in [0usize, 1, 64, 65, 1000, 5000] {
+        v.push(fitem(Box::new(g_raw(rng, n)), "RawVector"));
+    }
+    for (n, w) in [(0usize, 1usize), (1, 64), (5, 13), (64, 7), (100, 33), (200, 64)] {
+        v.push(fitem(Box::new(g_int(rng, n, w)), "IntVector"));
+    }
+    for n in [1usize, 513, 4097] {
+        v.push(fitem(Box::new(g_rank(rng, n)), "RankSupport"));
+        v.push(fitem(Box::new(g_sel_id(rng, n)), "SelectSupport<Identity>"));
+        v.push(fitem(Box::new(g_sel_co(rng, n)), "SelectSupport<Complement>"));
+    }
+    // bit vectors with every subset of supports
+    for n in [1usize, 65, 513] {
+        let bits = bits_for(rng, n);
+        for s in 0..8u64 {
+            v.push(fitem(Box::new(g_bv_bits(&bits, s)), "BitVector"));
+        }
+    }
+    v.push(fitem(Box::new(g_bv(rng, 4097, 7)), "BitVector"));
+    v.push(fitem(Box::new(g_bv(rng, 4097, 5)), "BitVector"));
+    // optionals
+    v.push(fitem(Box::new(none::<u64>("TU64")), "Option<u64>"));
+    v.push(fitem(Box::new(some(g_u64(rng))), "Option<u64>"));
+    v.push(fitem(Box::new(some(none::<String>("TString"))), "Option<Option<String>>"));
+    v.push(fitem(Box::new(some(some(g_string(rng, 5)))), "Option<Option<String>>"));
+    v.push(fitem(Box::new(some(some(some(g_bytes(rng, 9))))), "Option<Option<Option<Vec<u8>>>>"));
+    v.push(fitem(Box::new(none::<BitVector>("TBitVec")), "Option<BitVector>"));
+    v.push(fitem(Box::new(some(g_bv(rng, 600, 5))), "Option<BitVector>"));
+    v.push(fitem(Box::new(some(g_int(rng, 5, 13))), "Option<IntVector>"));
+    v.push(fitem(Box::new(some(g_vec_u64(rng, 50))), "Option<Vec<u64>>"));
+    v.push(fitem(Box::new(some(g_rl(rng, 20, 1, 3))), "Option<RLVector>"));
+    // run-length vectors
+    for (n, p, t) in [(0usize, 0u64, 0usize), (1, 0, 1), (16, 0, 0), (17, 1, 2), (65, 1, 3), (40, 2, 1)] {
+        v.push(fitem(Box::new(g_rl(rng, n, p, t)), "RLVector"));
+    }
+    // wavelet matrices and cores
+    let mut lists: Vec<Vec<u64>> = vec![vec![], vec![0], vec![1, 0, 3, 1, 1, 2, 4, 5, 1, 2, 1, 7, 0, 1], vec![4096, 0, 4096, 1, 2048]];
+    for (len, w) in [(65usize, 2u64), (40, 3), (200, 3), (100, 8)] {
+        lists.push(rand_vals(rng, len, w));
+    }
+    for (i, vals) in lists.iter().enumerate() {
+        v.push(fitem(Box::new(g_wm(vals)), "WaveletMatrix"));
+        if i % 2 == 0 {
+            v.push(fitem(Box::new(g_wmcore(vals)), "WMCore"));
+        }
+    }
+    // sparse vectors: sets and multisets, tiny and huge universes
+    for (len, count, multi, profile) in [(0usize, 0usize, false, 0u64), (70, 0, false, 0), (70, 70, false, 0), (137, 7, false, 0), (1000, 33, false, 1),
+        (5000, 33, false, 0), (1usize << 40, 3, false, 0), (usize::MAX, 40, false, 0), (300, 400, true, 0), (1usize << 40, 9, true, 1)] {
+        v.push(fitem_sparse(g_sparse(rng, len, count, multi, profile), "SparseVector"));
+    }
+    if thorough {
+        for _ in 0..150 {
+            let max = *rng.pick(&[64usize, 300, 1000, 3000]);
+            v.push(fitem(random_item(rng, max), "random"));
+        }
+    }
+    v
+}
+
+// larger values: serializations around and beyond 8 KiB and 16 KiB - one big slice (a buffering layer passes such a
+// write straight through), one big slice behind a header that just fills / does not fill a buffer, structures made of
+// many small items, structures whose last parts are small; a sample of limits
+fn file_items_large(rng: &mut Rng, thorough: bool) -> Vec<FItem> {
+    let mut v: Vec<FItem> = Vec::new();
+    for n in [1020usize, 1022, 1023, 1024, 1025, 2047, 2048, 3000] {
+        v.push(fitem(Box::new(g_vec_u64(rng, n)), "Vec<u64>"));
+    }
+    v.push(fitem(Box::new(g_vec_pair(rng, 1500)), "Vec<(u64, u64)>"));
+    for n in [8183usize, 8184, 8185, 8192, 8200, 20000] {
+        v.push(fitem(Box::new(g_bytes(rng, n)), "Vec<u8>"));
+    }
+    for n in [2000usize, 3000] {
+        v.push(fitem(Box::new(g_string(rng, n)), "String"));
+    }
+    for n in [65471usize, 65536, 65600, 140000] {
+        v.push(fitem(Box::new(g_raw(rng, n)), "RawVector"));
+    }
+    for (n, w) in [(1023usize, 64usize), (1024, 64), (1025, 64), (3000, 64), (3000, 13), (3000, 33)] {
+        v.push(fitem(Box::new(g_int(rng, n, w)), "IntVector"));
+    }
+    for style in [Style::Ones, Style::Half] {
+        let bits = gen_bits(rng, 8200, style);
+        v.push(fitem(Box::new(g_bv_bits(&bits, 7)), "BitVector"));
+    }
+    v.push(fitem(Box::new(g_bv(rng, 30000, 7)), "BitVector"));
+    v.push(fitem(Box::new(g_bv(rng, 66000, 7)), "BitVector"));
+    v.push(fitem(Box::new(g_bv(rng, 70000, 1)), "BitVector"));
+    v.push(fitem(Box::new(g_bv(rng, 140000, 6)), "BitVector"));
+    v.push(fitem(Box::new(some(g_bv(rng, 66000, 3))), "Option<BitVector>"));
+    v.push(fitem(Box::new(some(g_vec_u64(rng, 1100))), "Option<Vec<u64>>"));
+    v.push(fitem(Box::new(some(g_int(rng, 3000, 40))), "Option<IntVector>"));
+    for (n, p, t) in [(1000usize, 1u64, 1usize), (3000, 0, 0), (3000, 1, 3)] {
+        v.push(fitem(Box::new(g_rl(rng, n, p, t)), "RLVector"));
+    }
+    for (len, w) in [(3000usize, 3u64), (2000, 8), (3000, 12)] {
+        let vals = rand_vals(rng, len, w);
+        v.push(fitem(Box::new(g_wm(&vals)), "WaveletMatrix"));
+        if w == 12 {
+            v.push(fitem(Box::new(g_wmcore(&vals)), "WMCore"));
+        }
+    }
+    for (len, count, multi) in [(1usize << 20, 3000usize, false), (1usize << 40, 3000, false), (5000, 2500, false), (50000, 3000, true)] {
+        v.push(fitem_sparse(g_sparse(rng, len, count, multi, 0), "SparseVector"));
+    }
+    if thorough {
+        for _ in 0..40 {
+            let n = 900 + rng.below(2200) as usize;
+            match rng.below(5) {
+                0 => v.push(fitem(Box::new(g_vec_u64(rng, n)), "Vec<u64>")),
+                1 => { let w = *rng.pick(&WIDTHS); v.push(fitem(Box::new(g_int(rng, n, w)), "IntVector")) }
+                2 => { let s = rng.below(8); v.push(fitem(Box::new(g_bv(rng, 24 * n, s)), "BitVector")) }
+                3 => { let p = rng.below(3); v.push(fitem(Box::new(g_rl(rng, n, p, 1)), "RLVector")) }
+                _ => { let w = 1 + rng.below(10); let vals = rand_vals(rng, n, w); v.push(fitem(Box::new(g_wm(&vals)), "WaveletMatrix")) }
+            }
+        }
+    }
+    v
+}
+
+// the limits tried for a serialization of `size` bytes
+fn flimits(rng: &mut Rng, size: u64, sweep_max: u64, thorough: bool) -> Vec<u64> {
+    let mut l: Vec<u64> = Vec::new();
+    if size <= sweep_max {
+        // every multiple of 8 below the size, limits inside an element, and limits that suffice
+        let mut x = 0;
+        while x < size {
+            l.push(x);
+            x += 8;
+        }
+        l.extend_from_slice(&[1, 5, 12, size.saturating_sub(1), size.saturating_sub(3), (size / 2) | 1]);
+    } else {
+        l.extend_from_slice(&[0, 8, 16, 24, 4096, 8184, 8192, 8200, 8208, 16384, 16392, size / 16 * 8, size / 32 * 24]);
+        for d in [8u64, 16, 24, 32, 64, 1024, 4096, 8184, 8192, 8200, 8208, 16384, 1, 5] {
+            l.push(size.saturating_sub(d));
+        }
+        for _ in 0..(if thorough { 24 } else { 4 }) {
+            l.push(rng.below(size / 8) * 8);
+        }
+        l.push(rng.below(size));
+    }
+    l.extend_from_slice(&[size, size + 8, size + 1, 2 * size + 8192]);
+    l.sort();
+    l.dedup();
+    l
+}
+
+#[derive(Clone, Copy)]
+struct FRun {
+    item: usize,
+    full: bool,
+    limit: u64,
+}
+
+const NO_LOAD: u64 = 99;
+
+// runs in the child: "rc flen class load"
+fn file_job(it: &dyn Item, bytes: &[u8], r: &FRun, path: &std::path::Path, unlimited: libc::rlim_t) -> String {
+    let target: std::path::PathBuf = if r.full { std::path::PathBuf::from("/dev/full") } else { path.to_path_buf() };
+    let _ = std::fs::remove_file(path);
+    if !r.full {
+        set_soft_limit(r.limit as libc::rlim_t);
+    }
+    let res = catch(|| it.ser_to(&target));
+    set_soft_limit(unlimited);
+    let rc = match res {
+        Res::Ok(Ok(())) => 0,
+        Res::Ok(Err(e)) => errno_of(&e),
+        Res::Panic(k, _) => 2000 + k,
+    };
+    let (mut flen, mut class, mut load) = (0u64, 1u64, NO_LOAD);
+    if !r.full {
+        // a file that does not exist holds nothing: the empty prefix
+        let content = std::fs::read(path).unwrap_or_default();
+        flen = content.len() as u64;
+        class = if content[..] == bytes[..] {
+            0
+        } else if content.len() < bytes.len() && content[..] == bytes[..content.len()] {
+            1
+        } else {
+            2
+        };
+        load = match catch(|| it.load_from_cmp(path)) {
+            Res::Ok(Ok((eq, ans))) => if eq && ans { 0 } else { 5 },
+            Res::Ok(Err(e)) => err_code(&e),
+            Res::Panic(k, _) => 10 + k,
+        };
+        let _ = std::fs::remove_file(path);
+    }
+    format!("{} {} {} {}", rc, flen, class, load)
+}
+
+fn size_class(size: usize) -> &'static str {
+    if size <= 1024 { "le_1KiB" } else if size < 8192 { "lt_8KiB" } else if size <= 16384 { "8_to_16KiB" } else { "gt_16KiB" }
+}
+
+fn run_c14_files(rng: &mut Rng, out: &mut Out, thorough: bool) {
+    let dir = std::path::PathBuf::from(std::env::var("VERIF_RUNDIR").unwrap_or_else(|_| std::env::temp_dir().to_string_lossy().to_string()));
+    let sweep_max: u64 = if thorough { 4096 } else { 2048 };
+    let mut items = file_items_small(rng, thorough);
+    items.append(&mut file_items_large(rng, thorough));
+    let bytes: Vec<Vec<u8>> = items.iter().map(|f| serialize_item(f.it.as_ref())).collect();
+    let mut runs: Vec<FRun> = Vec::new();
+    for (i, bs) in bytes.iter().enumerate() {
+        for limit in flimits(rng, bs.len() as u64, sweep_max, thorough) {
+            runs.push(FRun { item: i, full: false, limit });
+        }
+        runs.push(FRun { item: i, full: true, limit: 0 });
+    }
+    // observations, in the order of `runs`
+    let mut obs: Vec<Option<[u64; 4]>> = Vec::with_capacity(runs.len());
+    for chunk in runs.chunks(1024) {
+        let job = |k: usize, path: &std::path::Path, unlimited: libc::rlim_t| {
+            let r = &chunk[k];
+            file_job(items[r.item].it.as_ref(), &bytes[r.item], r, path, unlimited)
+        };
+        out.stat("c14f.forked_batches");
+        for line in fork_lines(chunk.len(), &dir, "c14f", &job) {
+            obs.push(line.and_then(|l| {
+                let v: Vec<u64> = l.split_whitespace().filter_map(|x| x.parse().ok()).collect();
+                if v.len() == 4 { Some([v[0], v[1], v[2], v[3]]) } else { None }
+            }));
+        }
+    }
+    let mut k = 0usize;
+    for (i, f) in items.iter().enumerate() {
+        let bs = &bytes[i];
+        let size = bs.len();
+        let (elems, tail) = to_elems(bs);
+        let mut term_runs = String::from("[");
+        let mut json_runs = String::from("[");
+        let mut unreported: Vec<String> = Vec::new();
+        let mut first = true;
+        while k < runs.len() && runs[k].item == i {
+            let r = runs[k];
+            let o = match obs[k] {
+                Some(o) => o,
+                None => {
+                    out.stat("c14f.child_lost_run");
+                    [3000, 0, 2, NO_LOAD]
+                }
+            };
+            k += 1;
+            let fits = !r.full && r.limit >= size as u64;
+            out.stat("c14f.runs");
+            out.stat(if r.full { "c14f.sink.dev_full" } else if fits { "c14f.sink.rlimit_fsize.fits" } else { "c14f.sink.rlimit_fsize.too_small" });
+            out.stat(&match o[0] { 0 => "c14f.result.ok".to_string(), 27 => "c14f.result.EFBIG".to_string(), 28 => "c14f.result.ENOSPC".to_string(), x => format!("c14f.result.other_{}", x) });
+            if !r.full && r.limit % 8 != 0 {
+                out.stat("c14f.limit_not_multiple_of_8");
+            }
+            if !r.full && !fits {
+                out.stat(&format!("c14f.load_from_after_failure.code_{}", o[3]));
+                if o[1] == r.limit {
+                    out.stat("c14f.failed.file_holds_exactly_limit_bytes");
+                }
+                if size as u64 - r.limit <= 8192 {
+                    out.stat("c14f.failed.limit_within_last_8KiB");
+                }
+            }
+            if o[0] == 0 && o[2] != 0 {
+                out.stat("c14f.ok_returned_but_file_incomplete");
+                unreported.push(if r.full { "\"/dev/full\"".to_string() } else { format!("{}", r.limit) });
+            }
+            if !first {
+                term_runs.push_str("; ");
+                json_runs.push(',');
+            }
+            first = false;
+            let _ = write!(term_runs, "({}, {}, {}, {}, {}, {})", r.full as u64, n(r.limit), o[0], o[1], o[2], o[3]);
+            let _ = write!(json_runs, "[{},{},{},{},{},{}]", r.full as u64, r.limit, o[0], o[1], o[2], o[3]);
+        }
+        term_runs.push(']');
+        json_runs.push(']');
+        out.stat(&format!("c14f.type.{}", f.it.ty().replace(|c: char| !c.is_alphanumeric(), "")));
+        out.stat(&format!("c14f.size.{}", size_class(size)));
+        out.stat(if size as u64 <= sweep_max { "c14f.limits.every_multiple_of_8" } else { "c14f.limits.sampled" });
+        let term = format!("CFile {} {} {} {} {} {} {}", PATH, b(DBG), f.desc, nlist(&elems), blist8(&tail), f.it.size_by(), term_runs);
+        let json = format!(
+            "{{\"call\":\"serialize::serialize_to(&value, file) under RLIMIT_FSIZE = limit (soft, SIGXFSZ ignored) or on /dev/full, then serialize::load_from(file)\",\"value\":{:?},\"ty\":{:?},\"size_in_bytes\":{},\"ok_returned_but_file_incomplete_at_limits\":[{}],\"runs_dev_full_limit_result_filelen_contentclass_load\":{}}}",
+            f.label, f.it.ty(), size, unreported.join(","), json_runs
+        );
+        out.case("file", term, json, size > 8);
     }
 }
 
